@@ -22,15 +22,6 @@ const prop = "C14"
 
 var debugLogs map[string]int
 
-// tagNegWithdraw is the generator exclusion for PROPOSAL_WITHDRAW_FUNDS with a negative value.
-const tagNegWithdraw = "PROPOSAL_WITHDRAW_FUNDS:amt-neg"
-
-// tagTwoFinal keeps two proposals from being finalised in one block.
-const tagTwoFinal = "C14:two-finalised-one-block"
-
-// tagBoundary excludes validator power shapes that hit the fail threshold exactly.
-const tagBoundary = "C14:tally-boundary"
-
 type caseStats struct {
 	paths    []string
 	mon      *Monitor
@@ -195,9 +186,6 @@ func TestC14(t *testing.T) {
 	rapid.Check(t, func(rt *rapid.T) {
 		u := hist.NewU(rt)
 		p, flavour, pool := genParams(rt, fmt.Sprint(h.Seed))
-		if flavour == "boundary" && h.Excluded(tagBoundary) {
-			p.ValPower[0] += 7
-		}
 		mode := []string{"focused", "focused", "focused", "shared"}[u.N(4, "mode")]
 		tr := &hist.Trace{Params: p, Roles: hist.Roles(p, 1), Profile: mode + "/" + flavour}
 		nb := u.Range(12, maxBlocks, "nblocks")
@@ -224,9 +212,8 @@ func TestC14(t *testing.T) {
 			if mode == "shared" {
 				txs = g.DrawTxs(5)
 			} else {
-				txs, _ = f.drawBlock(h.IsExcluded(tagNegWithdraw))
+				txs, _ = f.drawBlock()
 			}
-			txs = filter(h, m, txs)
 			lastTxs = txs
 			if txs == nil {
 				lastTxs = []txgen.Tx{}
@@ -247,52 +234,6 @@ func TestC14(t *testing.T) {
 			h.Fail(rt, v.Oracle, v.Sig(), tr, "%s", v.Msg)
 		}
 	})
-}
-
-// filter applies the known-finding exclusions to the transactions drawn for a block (the shared
-// generator has no hook for them): an excluded input is replaced by nothing.
-func filter(h *run.H, m *Monitor, txs []txgen.Tx) []txgen.Tx {
-	exNeg, exTwo := h.IsExcluded(tagNegWithdraw), h.IsExcluded(tagTwoFinal)
-	if !exNeg && !exTwo {
-		return txs
-	}
-	pending, votes := false, false
-	for _, id := range m.Order {
-		if s := m.Props[id].Stage; s == SP || s == SN {
-			pending = true
-		}
-	}
-	for _, tx := range txs {
-		if tx.Kind == "PROPOSAL_VOTE" {
-			votes = true
-		}
-	}
-	voteID := ""
-	var out []txgen.Tx
-	for _, tx := range txs {
-		switch tx.Kind {
-		case "PROPOSAL_WITHDRAW_FUNDS":
-			if d := decodeTx(tx.Bytes); exNeg && d.Withdraw != nil && d.Withdraw.WithdrawValue.Value.BigInt().Sign() < 0 && h.Excluded(tagNegWithdraw) {
-				continue
-			}
-		case "PROPOSAL_VOTE":
-			// two proposals decided in one block are finalised in one block
-			if d := decodeTx(tx.Bytes); exTwo && d.Vote != nil {
-				if voteID == "" {
-					voteID = d.ID
-				} else if d.ID != voteID && h.Excluded(tagTwoFinal) {
-					continue
-				}
-			}
-		case "PROPOSAL_FINALIZE":
-			// a public finalisation next to the block's own finalisations
-			if exTwo && (pending || votes) && h.Excluded(tagTwoFinal) {
-				continue
-			}
-		}
-		out = append(out, tx)
-	}
-	return out
 }
 
 func summary(tr *hist.Trace, cs *caseStats) map[string]interface{} {
